@@ -162,6 +162,56 @@ func schedBurst(res *core.Result, r *core.RNG) error {
 	return nil
 }
 
+// (b5) a long run of accepted reports (more than the server keeps in its recent list, so the list is cut
+// at least once), sent over the real socket in bursts, then a restart: every accepted report is on disk,
+// so the state after the restart equals the state before it.  Oracle only (no model case).
+func longRunRestart(res *core.Result, r *core.RNG) error {
+	s, err := started(res, r, "long-run", 900, false, 1<<30, 1<<30, 1<<30)
+	if err != nil {
+		return err
+	}
+	w := s.w
+	_, _, up := w.S.Ports()
+	conn, err := net.Dial("udp", fmt.Sprintf("127.0.0.1:%d", up))
+	if err != nil {
+		return err
+	}
+	defer conn.Close()
+	max := int(server.VerifConsts()["maxRecentReports"])
+	if max <= 0 || max > 5000 {
+		return nil // production constants: the scenario is for the test build
+	}
+	total := max + max/2 + 40
+	sent := 0
+	for ts := w.Now - 430; sent < total && ts <= w.Now+430; ts++ {
+		var dgs [][]byte
+		for _, d := range s.a.Devices {
+			p := uint64(2 + r.Intn(1000000))
+			dgs = append(dgs, refReportBytes(d.ID, ts, p, glow.Sign(refReportSigningBytes(d.ID, ts, p), d.K.Priv)))
+		}
+		if sent > max-3 && sent < max+6 { // around the first cut: a second, different report (the slot gets banned)
+			d := s.a.Devices[0]
+			dgs = append(dgs, refReportBytes(d.ID, ts, 77, glow.Sign(refReportSigningBytes(d.ID, ts, 77), d.K.Priv)))
+		}
+		before := srvHandled()
+		for _, d := range dgs {
+			conn.Write(d)
+		}
+		for i := 0; i < 1500 && srvHandled()-before < int64(len(dgs)); i++ {
+			time.Sleep(time.Millisecond)
+		}
+		sent += len(dgs)
+	}
+	res.Count("long-run.restart")
+	s.restart(w.Now) // compares the views before and after (key c04-view-differs)
+	if s.alive {
+		if p := w.Close(); p != "" {
+			s.fail("server consistency check (CheckInvariants) panics after the long run: "+p, "checkinvariants-panic")
+		}
+	}
+	return nil
+}
+
 // (b1) devices banned while their datagrams are in flight on the real UDP socket
 func schedBanInFlight(res *core.Result, r *core.RNG) error {
 	s, err := started(res, r, "sched-ban", 900, true)
